@@ -298,7 +298,11 @@ class Executor:
             if exc.args:
                 try:
                     msg = self.ev(st, exc.args[0])
-                except Unsupported:
+                except Unsupported as e:
+                    # the TEXT of a message may be beyond the string model, but a message built from an unbound name
+                    # raises NameError / UnboundLocalError instead of the named exception: not swallowed
+                    if str(e).startswith('unknown name'):
+                        raise
                     msg = None
         else:
             cls = self.exc_name(st, exc)
@@ -368,6 +372,8 @@ class Executor:
         VV.CUR[0] = st
         if isinstance(tgt, ast.Name):
             st.locals[tgt.id] = v
+            if st.unbound:
+                st.unbound.pop(tgt.id, None)
         elif isinstance(tgt, ast.Attribute):
             obj = self.ev(st, tgt.value)
             self.store_attr(st, obj, tgt.attr, v, tgt)
@@ -408,7 +414,34 @@ class Executor:
             raise Raised('AttributeError')
         if obj.kind == 'opt':
             self.oblige(st, 'safe:none', name, z3.Not(Val.is_none(obj.t)), node)
+        # The declared type of a field is assumed when the field is READ.  That is only sound while every value this function
+        # stores into it is known to have that type: otherwise (e.g. `self.x: float = ... else None`) later reads must not
+        # assume the declaration any more (the state would become inconsistent and obligations vacuous).
+        cls_ = obj.ty.cls if obj.kind in ('ref', 'opt') else None
+        if obj.kind == 'opt' and obj.ty.args:
+            cls_ = obj.ty.args[0].cls
+        fty = self.field_ty(cls_, name) if cls_ else ANY
+        if fty.kind != 'any' and not self.fits_declared(v, fty):
+            st.untyped_fields.add(name)
+            self.ctx.note(f'declared type of field {name} not relied upon after a store of a {v.kind} value')
         st.write(as_ref(obj), name, self.box(st, v))
+
+    @staticmethod
+    def fits_declared(v: V, fty) -> bool:
+        """Is a value of static kind v.kind known to satisfy the declared field type fty?"""
+        k, fk = v.kind, fty.kind
+        if fk == 'opt':
+            inner = fty.args[0]
+            return k == 'none' or (k == 'opt' and Executor.fits_declared(V(v.t, v.ty.args[0]), inner)) or Executor.fits_declared(v, inner)
+        if k == fk:
+            if k == 'ref':
+                return True       # class membership is not part of the type facts assumed on reads
+            return True
+        if fk == 'real' and k in ('int', 'bool'):
+            return True
+        if fk == 'int' and k == 'bool':
+            return True
+        return False
 
     def box(self, st, v: V):
         """Val term of a value that is going to be stored in the heap / a container."""
@@ -915,18 +948,27 @@ class Executor:
             m.nonneg |= s.nonneg
             m._typed &= s._typed
             m.havoc_parent.update(s.havoc_parent)
+            m.untyped_fields |= s.untyped_fields
         # locals (a name bound on some paths only is arbitrary on the others)
         names = set()
         for s in states:
             names |= set(s.locals)
         new_locals = {}
+        new_unbound = {}
         for nme in names:
             vs = [s.locals[nme] if nme in s.locals else V(fresh_val('undef!' + nme), ANY) for s in states]
             mv = self.merge_vals(vs, conds)
             if mv is None:
                 return states          # cannot merge: keep paths separate
             new_locals[nme] = mv
+            # reading the name later raises UnboundLocalError on the paths that did not bind it: remembered as a condition,
+            # turned into the obligation safe:bound:<name> by the next load (cleared by the next assignment)
+            ub = [c if nme not in s.locals else z3.And(c, s.unbound[nme])
+                  for s, c in zip(states, conds) if nme not in s.locals or nme in s.unbound]
+            if ub:
+                new_unbound[nme] = z3.Or(*ub) if len(ub) > 1 else ub[0]
         m.locals = new_locals
+        m.unbound = new_unbound
         # heap
         fields = set()
         for s in states:
@@ -1019,6 +1061,10 @@ class Executor:
     def lookup(self, st: State, name: str, node=None) -> V:
         loc = st.locals0 if st.use_old else st.locals
         if name in loc:
+            if st.unbound and name in st.unbound and not st.spec and loc is st.locals:
+                cond = st.unbound.pop(name)
+                self.oblige(st, 'safe:bound', name, z3.Not(cond), node,
+                            note=f'local {name} is bound on every path that reaches this use (else UnboundLocalError)')
             return loc[name]
         if name in st.locals:
             return st.locals[name]
@@ -1130,7 +1176,8 @@ class Executor:
                                 return self.ev(st, c.class_attrs[name])
                             finally:
                                 self.frames.pop()
-            st.assume_type(v, guard=tguard)
+            if name not in st.untyped_fields:
+                st.assume_type(v, guard=tguard)
             if v.kind == 'dict' or (v.kind == 'opt' and v.ty.args[0].kind == 'dict'):
                 # representation invariant of every Python dict (keys enumerate the domain once)
                 dv = v if v.kind == 'dict' else V(v.t, v.ty.args[0])
@@ -1324,6 +1371,11 @@ class Executor:
             return self.dunder(st, l, f'__{dn}__', [r], node)
         if rk == 'ref' and r.ty.cls and self.repo.resolve_method(r.ty.cls, f'__r{dn}__'):
             return self.dunder(st, r, f'__r{dn}__', [l], node)
+        concrete = ('str', 'set', 'dict', 'list', 'tuple', 'none', 'bool', 'int', 'real')
+        if lk in concrete and rk in concrete:
+            # no rule above matched two values of KNOWN builtin kinds: in Python this is a TypeError (set + set, str - str,
+            # None + 1) or a form that is not modelled (list * symbolic int): never a total uninterpreted value
+            raise Unsupported(f'binary operator {opn} on kinds ({lk},{rk}): TypeError in Python, or not modelled')
         # arrays / untyped: uninterpreted, functional
         rty = ANY
         if lk in ('mat', 'vec'):
@@ -1609,7 +1661,10 @@ class Executor:
             st.spec -= 1
 
     def _e_Lambda(self, st, node):
-        return v_py(('lambda', node, dict(st.locals), self.frame.module))
+        env = dict(st.locals)
+        if st.use_old:
+            env.update(st.locals0)      # inside old(...) / raises conditions captured names denote their entry values
+        return v_py(('lambda', node, env, self.frame.module))
 
     def _e_Starred(self, st, node):
         raise Unsupported('starred expression')
@@ -1706,8 +1761,10 @@ class Executor:
 
     def call_closure(self, st, p, args, kwargs, node):
         fn = p[1]
-        saved = st.locals
+        saved, saved0 = st.locals, st.locals0
         st.locals = dict(p[2])
+        if st.use_old:
+            st.locals0 = st.locals
         fr = Frame(p[3], None, depth=self.frame.depth + 1)
         self.frames.append(fr)
         try:
@@ -1718,6 +1775,7 @@ class Executor:
         finally:
             self.frames.pop()
             st.locals = saved
+            st.locals0 = saved0
 
     def bind_params(self, st, a: ast.arguments, args: list[V], kwargs: dict[str, V], fi, skip_self=False):
         params = [x.arg for x in a.posonlyargs + a.args]
@@ -1810,8 +1868,12 @@ class Executor:
         if any(f.func is not None and f.func.qualname == fi.qualname for f in self.frames):
             raise Unsupported(f'recursive call of {fi.qualname} without a contract')
         self.ctx.note(f'inlined {fi.qualname}')
-        saved = st.locals
+        saved, saved0 = st.locals, st.locals0
         st.locals = {}
+        if st.use_old:
+            # inside old(...) / a `raises` condition names are looked up in locals0: the callee's own names must be found
+            # there (not the entry values of same-named parameters of the function under contract)
+            st.locals0 = st.locals
         fr = Frame(self.repo.modules[fi.module], fi, depth=self.frame.depth + 1)
         self.frames.append(fr)
         try:
@@ -1820,6 +1882,7 @@ class Executor:
         finally:
             self.frames.pop()
             st.locals = saved
+            st.locals0 = saved0
 
     def deprecated_target(self, fi: FuncInfo) -> FuncInfo | None:
         for d in fi.node.decorator_list:
